@@ -402,7 +402,8 @@ def run_verus(unit, src_text, workdir, seed=0, rlimit=None, threads=None):
 
 
 def load_units():
-    return json.load(open(os.path.join(VERIF, "units.json")))
+    # VERIF_UNITS: development only (a unit registry being worked on, not yet registered)
+    return json.load(open(os.environ.get("VERIF_UNITS") or os.path.join(VERIF, "units.json")))
 
 
 def verify_unit(unit, workdir, seed=0, keep=False):
